@@ -127,7 +127,7 @@ func composeBuilderForType(schemas ast.Schemas, builders ast.Builders, config Co
 		// every composed builder appends its own constants to the constructor:
 		// they can not share the slices of the source builder's.
 		Constructor: sourceBuilder.Constructor.DeepCopy(),
-		Properties:  sourceBuilder.Properties,
+		Properties:  copyProperties(nil, sourceBuilder.Properties),
 	}
 	if config.ComposedBuilderName != "" {
 		newBuilder.Name = config.ComposedBuilderName
@@ -410,12 +410,26 @@ func Properties(selector Selector, properties []ast.StructField) RewriteRule {
 				continue
 			}
 
-			builders[i].Properties = append(builders[i].Properties, properties...)
+			// builders are copied by value: never append into an array another copy may share
+			builders[i].Properties = copyProperties(builders[i].Properties, properties)
 			builders[i].AddToVeneerTrail("Properties")
 		}
 
 		return builders, nil
 	}
+}
+
+// copyProperties gives a fresh list holding copies of `properties`, then of `added`.
+func copyProperties(properties []ast.StructField, added []ast.StructField) []ast.StructField {
+	copies := make([]ast.StructField, 0, len(properties)+len(added))
+	for _, property := range properties {
+		copies = append(copies, property.DeepCopy())
+	}
+	for _, property := range added {
+		copies = append(copies, property.DeepCopy())
+	}
+
+	return copies
 }
 
 func Duplicate(selector Selector, duplicateName string, excludeOptions []string) RewriteRule {
